@@ -36,6 +36,10 @@ func c18rOps() []c18rOp {
 	}
 	ops = append(ops, c18rOp{kind: "update", uri: "file:///r1", name: "server: resource r1 updated"})
 	ops = append(ops, c18rOp{kind: "update", uri: "file:///r2", name: "server: resource r2 updated"})
+	// a subscription is to a URI, not to an entry of the resource list: taking the resource off the list
+	// (and putting it back) neither ends nor changes anybody's subscription
+	ops = append(ops, c18rOp{kind: "unpublish", uri: "file:///r1", name: "server: RemoveResources(r1)"})
+	ops = append(ops, c18rOp{kind: "publish", uri: "file:///r1", name: "server: AddResource(r1) again"})
 	return ops
 }
 
@@ -100,11 +104,12 @@ func c18rInBubble(ops []c18rOp, hist []int, transport string) verifx.SearchResul
 	synctest.Wait()
 	subscribed := map[string]map[int]bool{"file:///r1": {}, "file:///r2": {}}
 	closed := map[int]bool{}
+	unpublished := false
 	obs := ""
 	for step, oi := range hist {
 		op := ops[oi]
 		where := fmt.Sprintf("step %d (%s)", step, op.name)
-		if op.kind != "update" && closed[op.sess] {
+		if op.kind != "update" && op.kind != "publish" && op.kind != "unpublish" && closed[op.sess] {
 			return verifx.SearchResult{Skip: true}
 		}
 		switch op.kind {
@@ -130,6 +135,18 @@ func c18rInBubble(ops []c18rOp, hist []int, transport string) verifx.SearchResul
 				delete(m, op.sess)
 			}
 			obs = "close"
+		case "unpublish":
+			s.RemoveResources(op.uri)
+			synctest.Wait()
+			unpublished = true
+			obs = "unpublish"
+		case "publish":
+			s.AddResource(&Resource{URI: op.uri, Name: op.uri}, func(context.Context, *ReadResourceRequest) (*ReadResourceResult, error) {
+				return &ReadResourceResult{Contents: []*ResourceContents{{URI: op.uri, Text: "x"}}}, nil
+			})
+			synctest.Wait()
+			unpublished = false
+			obs = "publish"
 		case "update":
 			before := make([]int, 3)
 			for i := range got {
@@ -194,7 +211,7 @@ func c18rInBubble(ops []c18rOp, hist []int, transport string) verifx.SearchResul
 	if len(hist) > 0 {
 		last = ops[hist[len(hist)-1]].name
 	}
-	return verifx.SearchResult{Key: strings.Join(parts, "|") + fmt.Sprint(cl) + "<" + last + ">", Obs: obs}
+	return verifx.SearchResult{Key: strings.Join(parts, "|") + fmt.Sprint(cl, unpublished) + "<" + last + ">", Obs: obs}
 }
 
 func TestVerifC18Resources(t *testing.T) {
